@@ -79,6 +79,9 @@ func main() {
 	if c.Prop == "C15" && c.Sub == "exec" {
 		c15exec(&c, out)
 	}
+	if c.Prop == "C09" && c.Sub == "exec" {
+		c09exec(&c, out)
+	}
 	f := subs[c.Prop+"/"+c.Sub]
 	if f == nil {
 		var ks []string
